@@ -7,12 +7,16 @@ Driver glue for the `net.*` records (C08, C09, C10, C12).
 Record:  `net.<fam> <options> conn <actions> [conn …] [sub <actions> …] | <trace tokens>`
 Answer:  `EQ|NE  H1|H0:<clause>  [model=…]  [B:<tag>…]`
 
-* `H1/H0` is the Spec monitor of the family evaluated on the observed trace (`Spec.Net.check…`); a script outside
-  the property's domain answers `H1 B:skip-<reason>`.
+* `H1/H0` is the Spec monitor of the family evaluated on the observed trace (`Spec.Net.check…`, with the numbers of
+  the property text: `Spec.Net.frameLimit`, never the regenerated ones); a script outside the property's domain answers
+  `H1 B:skip-<reason>`; a script of which only some connections are outside it answers `H1 B:skipconn-conn<k>:<reason>`
+  (every other connection and every clause about the whole run was judged).
 * `EQ/NE` compares the Model's deterministic outcome for the script (with the panel's *observed* send times) with
   the observed outcome: deliveries per connection, drop or no drop, drop time within `Spec.Net.tol`, negotiated
-  mode, error text, bytes written.  When a deadline decision of the model has less than `margin` ms to spare the
-  record is tagged `B:tight-margin` and EQ is decided by the monitor alone.
+  mode, error text, bytes written (C09: byte for byte where the trace lists a submission, by length where it gives only
+  its size).  When a deadline decision of the model has less than `margin` ms to spare the record (C12: the connection)
+  is tagged `B:tight-margin` and EQ is decided by the monitor alone.  A record (C12: a connection) that is then also
+  outside the monitor's domain is checked by nothing: it is tagged `B:unchecked`, and `tools/propcfg` does not count it.
 -/
 namespace RawPanelVerif.Driver.Net
 open RawPanelVerif RawPanelVerif.Wire
@@ -123,7 +127,11 @@ def parseEv (tok : String) : Option TEv := do
     | ["det", b] => (parseBool b).map .det
     | ["dec", i, n, items] => do let i ← i.toNat?; let l ← parseItems n items; pure (.dec i l)
     | ["dex", i, n, items] => do let i ← i.toNat?; let l ← parseItems n items; pure (.dex i l)
-    | ["big", g, i, n, sz] => do let g ← g.toNat?; let i ← i.toNat?; let n ← n.toNat?; let sz ← sz.toNat?; pure (.big g i n sz)
+    | ["big", g, i, n, sz] => do let g ← g.toNat?; let i ← i.toNat?; let n ← n.toNat?; let sz ← sz.toNat?; pure (.big g i n sz 0 0 0 0)
+    | ["big", g, i, n, sz, bf, bb, al, ab] => do
+      let g ← g.toNat?; let i ← i.toNat?; let n ← n.toNat?; let sz ← sz.toNat?
+      let bf ← bf.toNat?; let bb ← bb.toNat?; let al ← al.toNat?; let ab ← ab.toNat?
+      pure (.big g i n sz bf bb al ab)
     | ["ping", b] => (hexBytes b).map .ping
     | "panic" :: _ => some .panic
     | _ => some .other
@@ -217,12 +225,12 @@ def faultTag (sc : Script) : String :=
   match sc.conns with
   | acts :: _ =>
     let da := Spec.Net.dataActs acts
-    let an := if sc.binary then Spec.Net.analyseB Net.limit sc.endMs da [] 0 0 else Spec.Net.analyseA da []
+    let an := if sc.binary then Spec.Net.analyseB Spec.Net.frameLimit sc.endMs da [] 0 0 else Spec.Net.analyseA da []
     match an.fault with
     | .none => "fault-none"
     | .over _ => "fault-over-limit"
     | .stall _ =>
-      match (Spec.Net.parse Net.limit an.stream).2 with
+      match (Spec.Net.parse Spec.Net.frameLimit an.stream).2 with
       | .incomplete r => if r.length < 4 then "fault-stall-in-header" else "fault-stall-in-payload"
       | _ => "fault-stall"
     | .closed _ => "fault-panel-closes"
@@ -239,7 +247,7 @@ def subItems (ascii : Bool) (g i : Nat) : Trace → Option (List Bytes)
     | _ => subItems ascii g i r
 
 /-- find the order in which the submissions were taken (the channel's order is not observable directly) -/
-def findOrder : Nat → List Bytes → List (List (List Bytes)) → Option (List (List Bytes))
+def findOrder (overhead : Nat) : Nat → List Bytes → List (List Spec.Net.Sub) → Option (List Spec.Net.Sub)
   | 0, _, _ => none
   | fuel + 1, units, pending =>
     let pending := pending.map (fun q => q.dropWhile (·.isEmpty))
@@ -248,10 +256,19 @@ def findOrder : Nat → List Bytes → List (List (List Bytes)) → Option (List
       (List.range pending.length).findSome? (fun g =>
         match pending[g]? with
         | some (s :: q) =>
-          match Spec.Net.stripPrefix units s with
-          | some rest => (findOrder fuel rest (pending.set g q)).map (s :: ·)
+          match Spec.Net.stripSub overhead units s with
+          | some rest => (findOrder overhead fuel rest (pending.set g q)).map (s :: ·)
           | none => none
         | _ => none)
+
+/-- what the model's writer puts on the wire for the submissions in dequeue order, compared with what the panel
+received: byte for byte where the trace lists the submission, by length where it only gives its size (`big`) -/
+def matchWritten (ascii : Bool) : List Spec.Net.Sub → Bytes → Bool
+  | [], rest => rest.isEmpty
+  | .listed u :: r, rest =>
+    let w := Net.writeOne (if ascii then .ascii else .binary) (if ascii then ⟨[], u⟩ else ⟨u, []⟩)
+    Spec.Net.isPrefixB w rest && matchWritten ascii r (rest.drop w.length)
+  | .sized _ bytes :: r, rest => decide (bytes ≤ rest.length) && matchWritten ascii r (rest.drop bytes)
 
 def compareC09 (sc : Script) (tr : Trace) : Bool × String :=
   -- the connection that is up at the end: its writer (and only its writer) takes what is handed over after its onconnect
@@ -259,50 +276,67 @@ def compareC09 (sc : Script) (tr : Trace) : Bool × String :=
   let ascii := !(modelBinary kLast ((sc.conns[kLast]?).getD []))
   let gs := List.range sc.subs.length
   let after := Spec.Net.afterNthCon (kLast + 1) tr
-  if Spec.Net.anyEv Spec.Net.isBig after then (true, "unlisted-submission") else
   let pending := gs.map (fun g => Spec.Net.subsOf ascii g after)
   let nsub := (pending.map List.length).sum
   let rx := Spec.Net.rxBytes kLast tr
   let pre := Net.probeBytes [8, 1] ++ (if ascii then [10] else [])
   let data := rx.drop pre.length
   let units := if ascii then (Spec.Net.splitLF data).1 else (Spec.Net.parse 4294967296 data).1
-  let order := if sc.subs.length ≤ 1 then some (pending.headD []) else findOrder (nsub + 1) units pending
+  let order := if sc.subs.length ≤ 1 then some (pending.headD []) else findOrder (if ascii then 1 else 4) (nsub + 1) units pending
   match order with
   | none => (false, "no-dequeue-order-explains-the-bytes")
   | some ord =>
-    let subs : List Net.Submission := ord.map (fun u => if ascii then ⟨[], u⟩ else ⟨u, []⟩)
-    let want := pre ++ Net.writeBytes (if ascii then .ascii else .binary) subs
-    (rx == want, s!"written={want.length},received={rx.length}")
+    let unlisted := ord.any (fun u => match u with | .sized _ _ => true | _ => false)
+    (Spec.Net.isPrefixB pre rx && matchWritten ascii ord data,
+     s!"submissions={ord.length},received={rx.length}" ++ (if unlisted then ",unlisted-by-length" else ""))
 
 /-! ### C12: model verdict -/
 
-def compareC12 (client : Bool) (sc : Script) (tr : Trace) : Bool × Bool × String :=
-  match sc.conns with
-  | [] => (false, false, "no-conn")
-  | acts :: _ =>
-    let ps := Spec.Net.probeScriptOf acts
-    let tProbe := Spec.Net.timeOf (fun e => match e with | .rx 0 _ => true | _ => false) tr
-    let tReply := Spec.Net.timeOf (fun e => match e with | .tx 0 _ => true | .cl 0 => true | _ => false) tr
-    let delay := match tProbe, tReply with | some a, some b => b - a | _, _ => ps.delay
-    let timeout := if client then Net.probeTimeout else Net.detectorTimeout
-    let tight := (ps.reply.isSome || ps.closes) && decide (absDiff delay timeout < Spec.Net.margin)
-    -- the single probe `Read` returns the panel's first segment
-    let reply := if client then Net.clientReply delay ps.first ps.closes else Net.detectorReply delay ps.first ps.closes
-    let v := if client then Net.classifyClient reply else Net.classifyDetector reply
-    let want := Net.probeBytes [8, 1] ++ v.writes.flatten
-    let rx := Spec.Net.rxBytes 0 tr
-    let rxOk := if ps.closes then Spec.Net.isPrefixB rx want else rx == want
-    match Spec.Net.observedVerdict client tr with
-    | none => (false, tight, "no-verdict-observed")
-    | some (bin, err) =>
-      (bin == v.binary && err == v.errorMsg && rxOk, tight,
-       s!"binary={showBool v.binary},err={hexOfBytes v.errorMsg},rx={hexOfBytes want}")
+/-- one connection of a C12 script: (model = implementation, tight, description) -/
+def compareConnC12 (client : Bool) (tr : Trace) (k : Nat) (acts : List Act) : Bool × Bool × String :=
+  let ps := Spec.Net.probeScriptOf acts
+  let delay := Spec.Net.replyDelayObs tr k ps.delay
+  let timeout := if client then Net.probeTimeout else Net.detectorTimeout
+  let tight := (ps.reply.isSome || ps.closes) && decide (absDiff delay timeout < Spec.Net.margin)
+  -- the single probe `Read` returns the panel's first segment
+  let reply := if client then Net.clientReply delay ps.first ps.closes else Net.detectorReply delay ps.first ps.closes
+  let v := if client then Net.classifyClient reply else Net.classifyDetector reply
+  let want := Net.probeBytes [8, 1] ++ v.writes.flatten
+  let rx := Spec.Net.rxBytes k tr
+  let rxOk := if ps.closes then Spec.Net.isPrefixB rx want else rx == want
+  match Spec.Net.nthVerdict client k tr with
+  | none => (false, tight, s!"conn{k}:no-verdict-observed")
+  | some (bin, err) =>
+    (bin == v.binary && err == v.errorMsg && rxOk, tight,
+     s!"conn{k}:binary={showBool v.binary},err={hexOfBytes v.errorMsg},rx={hexOfBytes want}")
+
+def compareConnsC12 (client : Bool) (tr : Trace) : Nat → List (List Act) → List (Bool × Bool × String)
+  | _, [] => []
+  | k, acts :: rest => compareConnC12 client tr k acts :: compareConnsC12 client tr (k + 1) rest
+
+def isFail : Verdict → Bool | .fail _ => true | _ => false
+def isSkip : Verdict → Bool | .skip _ => true | _ => false
+
+/-- C12, all connections: a connection whose reply lies within `margin` of the end of the window is decided by the
+monitor alone (the model's prediction is schedule dependent there), every other one by the comparison; a connection that
+is neither compared (tight) nor judged (outside the property's domain) is *unchecked*.
+Result: (EQ, some connection tight, descriptions of the differing connections, number of unchecked connections) -/
+def compareC12 (client : Bool) (sc : Script) (tr : Trace) : Bool × Bool × String × Nat :=
+  let cs := compareConnsC12 client tr 0 sc.conns
+  let vs := (Spec.Net.connVerdictsC12 client tr 0 sc.conns).map (·.2)
+  let rows := cs.zip vs
+  let eq := !sc.conns.isEmpty && rows.all (fun (c, v) => if c.2.1 then !isFail v else c.1)
+  let tight := cs.any (·.2.1)
+  let unchecked := (rows.filter (fun (c, v) => c.2.1 && isSkip v)).length
+  let desc := " ".intercalate ((rows.filter (fun (c, v) => if c.2.1 then isFail v else !c.1)).map (fun (c, _) => c.2.2))
+  (eq, tight, desc, unchecked)
 
 /-! ### one record -/
 
 def verdictStr : Verdict → String × List String
   | .ok => ("H1", [])
   | .skip r => ("H1", [s!"B:skip-{r}"])
+  | .partly rs => ("H1", rs.map (fun r => s!"B:skipconn-{r}"))
   | .fail c => (s!"H0:{c}", [])
 
 def step (cmd : String) (args : List String) (impl : String) : String :=
@@ -311,32 +345,35 @@ def step (cmd : String) (args : List String) (impl : String) : String :=
   | _, none => "ERR bad-trace"
   | some sc, some tr =>
     let modeTag := if sc.binary then "B:mode-binary" else "B:mode-ascii"
-    let (eq, tight, desc, verdict, tags) : Bool × Bool × String × Verdict × List String :=
+    -- (model = implementation, tight, description, verdict, tags, connections neither compared nor judged)
+    let (eq, tight, desc, verdict, tags, unchecked) : Bool × Bool × String × Verdict × List String × Nat :=
       if cmd = "net.c08" then
         let c := compareConns sc tr 0 sc.conns (Spec.Net.windows (sc.conns.length + 2) tr)
-        (c.1, c.2.1, " ".intercalate c.2.2, Spec.Net.checkC08 Net.limit sc tr, [modeTag])
+        let v := Spec.Net.checkC08 Spec.Net.frameLimit sc tr
+        (if c.2.1 then !isFail v else c.1, c.2.1, " ".intercalate c.2.2, v, [modeTag], if c.2.1 && isSkip v then 1 else 0)
       else if cmd = "net.c10" then
         let c := compareConns sc tr 0 sc.conns (Spec.Net.windows (sc.conns.length + 2) tr)
-        (c.1, c.2.1, " ".intercalate c.2.2, Spec.Net.checkC10 Net.limit sc tr, [modeTag, "B:" ++ faultTag sc])
+        let v := Spec.Net.checkC10 Spec.Net.frameLimit sc tr
+        (if c.2.1 then !isFail v else c.1, c.2.1, " ".intercalate c.2.2, v, [modeTag, "B:" ++ faultTag sc], if c.2.1 && isSkip v then 1 else 0)
       else if cmd = "net.c09" then
         let c := compareC09 sc tr
-        (c.1, false, c.2, Spec.Net.checkC09 sc tr, [modeTag, s!"B:submitters-{sc.subs.length}"])
+        (c.1, false, c.2, Spec.Net.checkC09 sc tr, [modeTag, s!"B:submitters-{sc.subs.length}"], 0)
       else if cmd = "net.c12c" ∨ cmd = "net.c12d" then
         let client := cmd = "net.c12c"
         let c := compareC12 client sc tr
-        let cls := match sc.conns with
-          | acts :: _ => (match Spec.Net.classOfReply (Spec.Net.probeScriptOf acts).reply with
-            | .ack => "ack" | .otherFrame => "other-frame" | .silence => "silence" | .rdy => "rdy" | .map => "map"
-            | .errorMsg _ => "errormsg" | .otherText => "other-text" | .unnamed => "unnamed")
-          | [] => "none"
-        (c.1, c.2.1, c.2.2, Spec.Net.checkC12 client sc tr, [if client then "B:entry-client" else "B:entry-detector", "B:reply-" ++ cls])
-      else (false, false, "unknown-record", .fail "unknown-record", [])
+        let clsOf (acts : List Act) : String :=
+          match Spec.Net.classOfReply (Spec.Net.probeScriptOf acts).reply with
+          | .ack => "ack" | .otherFrame => "other-frame" | .silence => "silence" | .rdy => "rdy" | .map => "map"
+          | .errorMsg _ => "errormsg" | .otherText => "other-text" | .unnamed => "unnamed"
+        let cls := match sc.conns.getLast? with | some acts => clsOf acts | none => "none"
+        (c.1, c.2.1, c.2.2.1, Spec.Net.checkC12 client sc tr,
+         [if client then "B:entry-client" else "B:entry-detector", "B:reply-" ++ cls, s!"B:connections-{sc.conns.length}"], c.2.2.2)
+      else (false, false, "unknown-record", .fail "unknown-record", [], 0)
     let (h, vtags) := verdictStr verdict
-    let ok := match verdict with | .fail _ => false | _ => true
-    -- margin-unsafe scripts: the model's prediction is schedule dependent; the monitor decides
-    let eq' := if tight then ok else eq
-    let tags := tags ++ vtags ++ (if tight then ["B:tight-margin"] else [])
+    -- margin-unsafe scripts: the model's prediction is schedule dependent; the monitor decides (`eq` says so already).
+    -- A record (connection) that is neither compared nor judged is tagged: tools must not count it as checked.
+    let tags := tags ++ vtags ++ (if tight then ["B:tight-margin"] else []) ++ (if unchecked > 0 then ["B:unchecked"] else [])
     let tagStr := " ".intercalate tags
-    if eq' then s!"EQ {h} {tagStr}" else s!"NE {h} model:{desc.replace " " "_"} {tagStr}"
+    if eq then s!"EQ {h} {tagStr}" else s!"NE {h} model:{desc.replace " " "_"} {tagStr}"
 
 end RawPanelVerif.Driver.Net
